@@ -67,9 +67,13 @@ def judge(ctx, s, origin, res, pred=None):
     if res is None:
         key = {"kind": "no-termination-within-limit"}
         got = ["hang"]
+        ctx.hangs = getattr(ctx, "hangs", 0) + 1
     else:
         cls, dg, detail, nondet, dt = res
         got = [cls] + list(detail)
+        if cls == "skipped":
+            ctx.traces -= 1
+            return got
         if cls not in ALLOWED:
             key = {"kind": "outcome-" + cls, "exc": detail[0] if cls in ("foreign", "libother") and detail else ""}
         elif nondet:
@@ -95,12 +99,18 @@ def many(ctx, items, origin_of, batch=400):
     """items: list of (text, pred|None, tag). Returns list of outcome classes."""
     out = []
     for i in range(0, len(items), batch):
+        if getattr(ctx, "hangs", 0) >= 5:      # enough evidence of non-termination: do not wait for thousands more
+            out.extend([["skipped"]] * (len(items) - i))
+            break
         chunk = items[i:i + batch]
         res = WORKER.ask([c[0] for c in chunk], TIME_LIMIT + 10)
         if res is None:
             # find the culprit(s) one by one
             res = []
             for c in chunk:
+                if getattr(ctx, "hangs", 0) + sum(1 for x in res if x is None) >= 5:
+                    res.append(["skipped", "", [], False, 0.0])
+                    continue
                 r = WORKER.ask([c[0]], TIME_LIMIT)
                 res.append(None if r is None else r[0])
         for c, r in zip(chunk, res):
@@ -109,6 +119,8 @@ def many(ctx, items, origin_of, batch=400):
 
 
 def one(ctx, s, origin, pred=None):
+    if getattr(ctx, "hangs", 0) >= 5:
+        return ["skipped"]
     r = WORKER.ask([s], TIME_LIMIT)
     return judge(ctx, s, origin, None if r is None else r[0], pred)
 
